@@ -3,6 +3,7 @@ package resp
 import (
 	"context"
 	"fmt"
+	"net"
 	"sync"
 	"testing"
 	"time"
@@ -411,4 +412,34 @@ func TestRemoteControl(t *testing.T) {
 		t.Fatal(s.Now())
 	}
 	do(t, s, "1234", "VERIF.NOW")
+}
+
+// Serve (standalone mode) hosts a stub at a given address until the process ends.
+func TestServeStandalone(t *testing.T) {
+	ln, err := net.Listen("tcp", "127.0.0.1:0")
+	if err != nil {
+		t.Fatal(err)
+	}
+	addr := ln.Addr().String()
+	ln.Close()
+	go Serve(addr)
+	var last error
+	for i := 0; i < 200; i++ {
+		if _, last = Do(addr, "PING"); last == nil {
+			break
+		}
+		time.Sleep(5 * time.Millisecond)
+	}
+	if last != nil {
+		t.Fatal(last)
+	}
+	if got, err := Do(addr, "SET", "k", "v", "PX", "10"); err != nil || got != "OK" {
+		t.Fatal(got, err)
+	}
+	if err := AdvanceRemote(addr, 11*time.Millisecond); err != nil {
+		t.Fatal(err)
+	}
+	if got, _ := Do(addr, "GET", "k"); got != "(nil)" {
+		t.Fatalf("GET after remote advance = %q", got)
+	}
 }
